@@ -140,8 +140,8 @@ def bind(ctx):
 
     E = sym.Engine(ctx, max_paths=2000, incremental=True)
     found = E.explore(h)
-    for label, m, pc in found[:2]:
-        st, exp = choice.value_in_model(m, h.b)
+    for (label, m, pc), A in list(zip(found, E.autosnaps))[:2]:
+        st, exp = choice.value_in_model(m, A["b"])
         ctx.report(label, {"stmt": st, "expected": exp}, replay_bind)
     if E.reached.get("parsed"):
         ctx.twins += 1
